@@ -107,20 +107,19 @@ def growSpanP (t : PTier α) (ps : List (Pt α)) : PTier α :=
     | none => t.hi
   { t with ps := ps, lo := lo, hi := hi }
 
-/-- `PointTier.insertEntry` -/
+/-- `PointTier.insertEntry` (after the repair in /repo: EVERY point at the insertion time collides, not only the first) -/
 def PTier.insertEntry (t : PTier α) (x0 : Pt α) (mode : InsMode) : Except Err (PTier α) := do
   let x : Pt α := { x0 with l := pyStrip x0.l }
+  let ml := t.ps.filter (fun p => p.t == x.t)
   let ps1 ←
-    match t.ps.find? (fun p => p.t == x.t) with
-    | none => pure (t.ps ++ [x])
-    | some old =>
-      match mode with
+    if ml.isEmpty then pure (t.ps ++ [x])
+    else match mode with
       | .replace => do
-        let ps0 ← deletePt t.ps old
+        let ps0 ← ml.foldlM deletePt t.ps
         pure (ps0 ++ [x])
       | .merge => do
-        let ps0 ← deletePt t.ps old
-        pure (ps0 ++ [⟨x.t, pyJoin "-" [old.l, x.l]⟩])
+        let ps0 ← ml.foldlM deletePt t.ps
+        pure (ps0 ++ [⟨x.t, pyJoin "-" (ml.map (·.l) ++ [x.l])⟩])
       | .error => throw .CollisionError
   pure (growSpanP t (sortPts ps1))
 
